@@ -391,3 +391,52 @@ def run(ctx: Ctx):
     default_none = len(gc.args.defaults) == 1 and isinstance(gc.args.defaults[0], ast.Constant) and gc.args.defaults[0].value is None
     ctx.check(default_none, "fresh-converter", "get_converter:default",
               "the converter parameter's default is not None (a shared default object would be reused)", P_CONVERTERS, gc.lineno)
+
+
+_run_c19_base = run
+
+
+def run(ctx: Ctx):  # noqa: F811
+    _run_c19_base(ctx)
+    _handlers_independent_of_validation_mode(ctx)
+
+
+def _handlers_independent_of_validation_mode(ctx: Ctx):
+    """A user-supplied converter may have detailed validation on or off, and which exception a failing structure() call
+    raises depends on it: with it on, class and sequence failures arrive wrapped in cattrs' validation errors (a
+    BaseValidationError / ExceptionGroup); with it off the raw KeyError / TypeError / ValueError arrives.  A hook that
+    recovers from such a failure (try: structure(...) except E: ...) behaves the same under both settings only if E covers
+    both families -- i.e. it is Exception (or bare), or names a validation class *and* raw exception classes."""
+    hm = Module(P_HOOKS, ctx.src.text(P_HOOKS))
+    validation = {"BaseValidationError", "ClassValidationError", "IterableValidationError", "ExceptionGroup"}
+    n = 0
+    for fn in hm.all_functions():
+        for node in ast.walk(fn):
+            if not isinstance(node, ast.Try):
+                continue
+            calls = [c for s_ in node.body for c in ast.walk(s_) if isinstance(c, ast.Call)
+                     and ((dotted(c.func) or "").split(".")[-1] in ("structure", "structure_attrs_fromdict"))]
+            if not calls:
+                continue
+            for h_ in node.handlers:
+                n += 1
+                if h_.type is None:
+                    ctx.ok("handler-independent-of-validation-mode", {"function": fn.name, "catches": "everything"})
+                    continue
+                ts_ = h_.type.elts if isinstance(h_.type, ast.Tuple) else [h_.type]
+                names = {(dotted(t_) or "?").split(".")[-1] for t_ in ts_}
+                if names & {"Exception", "BaseException"}:
+                    ctx.ok("handler-independent-of-validation-mode", {"function": fn.name, "catches": sorted(names)})
+                    continue
+                has_val, has_raw = bool(names & validation), bool(names - validation)
+                ctx.check(has_val and has_raw, "handler-independent-of-validation-mode",
+                          f"{fn.name}:except {', '.join(sorted(names))}",
+                          f"{fn.name} recovers from a failing structure() call only for {sorted(names)}: "
+                          + ("with detailed validation off the failure arrives as a bare KeyError / TypeError / ValueError and is "
+                             "not caught" if has_val else
+                             "with detailed validation on the failure arrives wrapped in a cattrs validation error "
+                             "(an ExceptionGroup) and is not caught")
+                          + ", so converters built on differently configured cattrs converters structure the same input differently",
+                          P_HOOKS, h_.lineno, sample={"function": fn.name, "catches": sorted(names)})
+    if n == 0:
+        ctx.ok("handler-independent-of-validation-mode", {"try_around_structure_calls": 0})
